@@ -23,17 +23,17 @@ include ok hfuel
 
 theorem rinv_init : RInv cfg (init cfg) ({} : A) := by
   have hI : MInv cfg (init cfg) := ⟨top_init ok hfuel, init_K cfg, init_statInv cfg⟩
-  refine ⟨hI, ?_, ⟨(fun _ h => by cases h), (fun _ h => by cases h)⟩⟩
+  refine ⟨hI, ?_, ⟨(fun _ h => by cases h), (fun _ h => by cases h)⟩, (fun _ h => by cases h)⟩
   -- the state before the "initialized" log line
   let s0 : State := { mods := [{ uid := 0, name := "message_manager".toList.map (·.toNat), pid := cfg.mmPid, connected := true }] }
   have hd0 : UidsDistinct s0 := by simp [UidsDistinct, s0]
   have hS0 : Sim cfg s0 ({} : A) := by
-    refine ⟨rfl, rfl, rfl, rfl, rfl, rfl, rfl, (fun _ h => by cases h), rfl, rfl, rfl, rfl, ?_, ?_⟩
+    refine ⟨rfl, rfl, rfl, rfl, rfl, rfl, rfl, (fun _ h => by cases h), rfl, rfl, rfl, rfl, ?_, ?_, (fun _ h => by cases h)⟩
     · intro m hm h0; simp [s0] at hm; subst hm; exact absurd rfl h0
     · intro m hm _; simp [s0] at hm; subst hm; rfl
   obtain ⟨e, hE⟩ := logTop_ev cfg 20 hd0
   obtain ⟨mk, hA⟩ := logAt_macc cfg 20 s0
-  have := sim_step hE hA (cliMarks_mgr cfg hA.marks) (logTop_rk cfg _ 20 s0) hI.k.distinct hI.top.aopen hS0
+  have := sim_step hE hA (cliMarks_mgr cfg hA.marks) (logTop_rk cfg _ 20 s0) (logTop_ikr cfg _ 20 s0) hI.k.distinct hI.top.aopen hS0
   have he : applyDepartures ({} : A) e = ({} : A) := by rw [applyDepartures_eq]; simp [depMods_eq_map]
   rw [he] at this
   exact this
